@@ -127,7 +127,7 @@ struct Case {
     pred: Pred,
 }
 
-async fn build(fam: &Fam, mode: &str, frags: usize) -> Result<(Env, Dataset, Vec<(i64, Cell)>), String> {
+async fn build(fam: &Fam, mode: &str, frags: usize) -> Result<(Env, Dataset, Vec<(i64, Cell)>, Vec<(i64, Cell)>), String> {
     let env = Env::new();
     let rows = pair_rows(&fam.dom);
     let cols = vec![("uid".to_string(), DataType::Int32), ("c".to_string(), fam.dt.clone())];
@@ -166,7 +166,7 @@ async fn build(fam: &Fam, mode: &str, frags: usize) -> Result<(Env, Dataset, Vec
             FIDELITY.lock().unwrap().insert(format!("{mode}/{}: written {} read back as {}", fam.label, show(&[vec![w.clone()]]), show(&[vec![r.clone()]])));
         }
     }
-    Ok((env, ds, stored))
+    Ok((env, ds, stored, rows))
 }
 
 static FIDELITY: std::sync::Mutex<std::collections::BTreeSet<String>> = std::sync::Mutex::new(std::collections::BTreeSet::new());
@@ -186,7 +186,7 @@ struct Tally {
     pruning_plans: u64,
 }
 
-async fn check(ds: &Dataset, rows: &[(i64, Cell)], fam: &Fam, mode: &str, frags: usize, p: &Pred, t: &mut Tally) {
+async fn check(ds: &Dataset, rows: &[(i64, Cell)], written: &[(i64, Cell)], fam: &Fam, mode: &str, frags: usize, p: &Pred, t: &mut Tally) {
     let sql = typed_sql(p, "c", &fam.dt);
     let on = scan_uids(ds, &sql, &knobs(mode, true)).await;
     let off = scan_uids(ds, &sql, &knobs(mode, false)).await;
@@ -221,51 +221,64 @@ async fn check(ds: &Dataset, rows: &[(i64, Cell)], fam: &Fam, mode: &str, frags:
     if on != off {
         let dropped: Vec<i64> = off.iter().filter(|u| !on.contains(u)).cloned().collect();
         let added: Vec<i64> = on.iter().filter(|u| !off.contains(u)).cloned().collect();
-        let kind = match (dropped.is_empty(), added.is_empty()) {
-            (false, true) => "pruning-drops-matching-rows",
-            (true, false) => "pruning-adds-rows",
-            _ => "pruning-adds-and-drops-rows",
-        };
-        // which kind of value is lost: NaN / -0 / +-inf / truncated string ...
-        let vals: Vec<Cell> = dropped.iter().chain(added.iter()).filter_map(|u| rows.iter().find(|(x, _)| x == u).map(|(_, c)| c.clone())).collect();
-        let cls = value_class(&vals);
         t.cov.outcome("pruning-changes-result");
-        t.viol.push(Violation::new(
-            "pruning-vs-full-scan",
-            &format!("{mode}/{}/{shape}/{kind}/{cls}", fam.label),
-            format!("{} {mode}: filter {sql}: pruning on -> {} rows, off -> {} rows; dropped uids {:?} (values {:?}), added {:?}", fam.label, on.len(), off.len(), dropped, dropped.iter().map(|u| val(*u)).collect::<Vec<_>>(), added),
-            case.clone(),
-        ));
+        // one violation per (direction, class of the differing rows): different root causes show up as
+        // different pairs (NaN rows dropped; NULL / NaN rows added; rows whose value the legacy format
+        // did not store faithfully)
+        let mut pairs: BTreeMap<String, Vec<i64>> = BTreeMap::new();
+        for (dir, ids) in [("pruning-drops-matching-rows", &dropped), ("pruning-adds-rows", &added)] {
+            for u in ids {
+                pairs.entry(format!("{mode}/{dir}/{}", value_class(&[*u], rows, written))).or_default().push(*u);
+            }
+        }
+        for (key, ids) in pairs {
+            t.viol.push(Violation::new(
+                "pruning-vs-full-scan",
+                &key,
+                format!("{} {mode}: filter {sql}: pruning on -> {} rows, off -> {} rows; differing uids {ids:?} (stored values {:?})", fam.label, on.len(), off.len(), ids.iter().map(|u| val(*u)).collect::<Vec<_>>()),
+                case.clone(),
+            ));
+        }
     } else {
         t.cov.outcome("agree");
     }
     if off != want {
         let missing: Vec<i64> = want.iter().filter(|u| !off.contains(u)).cloned().collect();
         let extra: Vec<i64> = off.iter().filter(|u| !want.contains(u)).cloned().collect();
-        let vals: Vec<Cell> = missing.iter().chain(extra.iter()).filter_map(|u| rows.iter().find(|(x, _)| x == u).map(|(_, c)| c.clone())).collect();
+        let ids: Vec<i64> = missing.iter().chain(extra.iter()).cloned().collect();
         t.viol.push(Violation::new(
             "scan-vs-model",
-            &format!("scan-vs-model/{mode}/{}/{shape}/{}/{}", fam.label, if missing.is_empty() { "scan-adds-rows" } else if extra.is_empty() { "scan-drops-rows" } else { "scan-adds-and-drops" }, value_class(&vals)),
+            &format!("scan-vs-model/{mode}/{}/{shape}/{}/{}", fam.label, if missing.is_empty() { "scan-adds-rows" } else if extra.is_empty() { "scan-drops-rows" } else { "scan-adds-and-drops" }, value_class(&ids, rows, written)),
             format!("{} {mode}: filter {sql} without pruning: missing uids {missing:?} extra {extra:?} (values {:?})", fam.label, missing.iter().chain(extra.iter()).map(|u| val(*u)).collect::<Vec<_>>()),
             case,
         ));
     }
 }
 
-fn value_class(vals: &[Cell]) -> String {
-    let mut k: Vec<&str> = vals
+/// classes of the rows on which two answers differ, by what was written and what is stored
+fn value_class(ids: &[i64], stored: &[(i64, Cell)], written: &[(i64, Cell)]) -> String {
+    let mut k: Vec<&str> = ids
         .iter()
-        .map(|c| match c {
-            Cell::Null => "null",
-            Cell::F(b) => {
-                let v = f64::from_bits(*b);
-                if v.is_nan() { "nan" } else if v.is_infinite() { "inf" } else if v == 0.0 { "zero" } else { "finite" }
+        .map(|u| {
+            let st = stored.iter().find(|(x, _)| x == u).map(|(_, c)| c.clone()).unwrap_or(Cell::Null);
+            let wr = written.iter().find(|(x, _)| x == u).map(|(_, c)| c.clone()).unwrap_or(Cell::Null);
+            if wr != st {
+                // the storage format did not keep the value (legacy: NULL of a fixed-width column is read
+                // back as 0, "" is read back as NULL) while the statistics describe what was written
+                return if wr.is_null() { "written-null-stored-as-zero" } else { "written-empty-string-stored-as-null" };
             }
-            Cell::S(s) if s.len() > 64 => "long-string",
-            Cell::S(s) if s.is_empty() => "empty-string",
-            Cell::S(_) => "string",
-            Cell::I(_) | Cell::U(_) => "int",
-            _ => "other",
+            match &st {
+                Cell::Null => "null",
+                Cell::F(b) => {
+                    let v = f64::from_bits(*b);
+                    if v.is_nan() { "nan" } else if v.is_infinite() { "inf" } else if v == 0.0 { "zero" } else { "finite" }
+                }
+                Cell::S(s) if s.len() > 64 => "long-string",
+                Cell::S(s) if s.is_empty() => "empty-string",
+                Cell::S(_) => "string",
+                Cell::I(_) | Cell::U(_) => "int",
+                _ => "other",
+            }
         })
         .collect();
     k.sort();
@@ -279,8 +292,8 @@ fn replay(art: &Value) -> Outcome {
     let fam = fams().into_iter().find(|f| f.label == c.fam).unwrap_or_else(|| vcore::machinery_error("unknown family"));
     let mut t = Tally { cov: Cov::new(), viol: vec![], rejected: BTreeMap::new(), pruning_plans: 0 };
     let r = run_catch(async {
-        let (_env, ds, rows) = build(&fam, &c.mode, c.frags).await?;
-        check(&ds, &rows, &fam, &c.mode, c.frags, &c.pred, &mut t).await;
+        let (_env, ds, rows, written) = build(&fam, &c.mode, c.frags).await?;
+        check(&ds, &rows, &written, &fam, &c.mode, c.frags, &c.pred, &mut t).await;
         Ok::<(), String>(())
     });
     match r {
@@ -324,15 +337,15 @@ pub fn run(ctx: &Ctx) -> Outcome {
         let mut t = Tally { cov: Cov::new(), viol: vec![], rejected: BTreeMap::new(), pruning_plans: 0 };
         let mut complete = true;
         let built = run_catch(async {
-            let (env, ds, rows) = build(fam, mode, frags).await?;
+            let (env, ds, rows, written) = build(fam, mode, frags).await?;
             // vacuity guard: the pruning path must be the one planned
             let mut sc = ds.scan();
             sc.filter("c IS NOT NULL").map_err(|e| e.to_string())?;
             knobs(mode, true).apply(&mut sc);
             let plan = sc.explain_plan(false).await.map_err(|e| e.to_string())?;
-            Ok::<_, String>((env, ds, rows, plan))
+            Ok::<_, String>((env, ds, rows, written, plan))
         });
-        let (_env, ds, rows, plan) = match built {
+        let (_env, ds, rows, written, plan) = match built {
             Ok(Ok(x)) => x,
             Ok(Err(e)) => return (t, true, Some(e)),
             Err(p) => return (t, true, Some(format!("panic while building: {p}"))),
@@ -345,7 +358,7 @@ pub fn run(ctx: &Ctx) -> Outcome {
                 complete = false;
                 break;
             }
-            if let Err(pn) = run_catch(check(&ds, &rows, fam, mode, frags, p, &mut t)) {
+            if let Err(pn) = run_catch(check(&ds, &rows, &written, fam, mode, frags, p, &mut t)) {
                 t.viol.push(Violation::new("panic", &format!("{mode}/{}/panic/{}", fam.label, err_shape(&pn)), format!("filter {} panics: {pn}", typed_sql(p, "c", &fam.dt)), json!(Case { fam: fam.label.into(), mode: mode.into(), frags, pred: p.clone() })));
             }
         }
